@@ -239,3 +239,22 @@ def run(tier, seed, escalate=False):
     res = merge_oracle(res, f, n, "storage_dtype_variants")
     f, n = history_independence("C13", DTYPE_CASES, seed)
     return merge_oracle(res, f, n, "call_history_cases")
+
+
+# ------------------------------------------------------------------ the same argument values in another container / number type
+from oracles import argform_independence
+ARGFORM_CASES = [("phase-angles", "f2", [(lab, (lambda a, b: lambda d, dim: dnp.phase(d, dim, a, b))(a, b)) for lab, a, b in (
+        ("floats", 30.0, -45.0), ("ints", 30, -45), ("numpy-floats", np.float64(30.0), np.float64(-45.0)), ("0-d arrays", np.array(30.0), np.array(-45.0)))]),
+    ("phase-per-trace", "f2", [(lab, (lambda a, b: lambda d, dim: dnp.phase(d, dim, a, b))(a, b)) for lab, a, b in (
+        ("arrays", np.arange(6) * 20.0 - 40.0, np.arange(6) * -15.0 + 30.0), ("lists", list(np.arange(6) * 20.0 - 40.0), list(np.arange(6) * -15.0 + 30.0)),
+        ("int-arrays", np.arange(6) * 20 - 40, np.arange(6) * -15 + 30), ("tuples", tuple(np.arange(6) * 20.0 - 40.0), tuple(np.arange(6) * -15.0 + 30.0)))]),
+    ("phase_cycle", "t2", [(lab, (lambda r: lambda d, dim: dnp.phase_cycle(d, dim, r))(r)) for lab, r in (
+        ("list", [0, 1, 2, 3]), ("tuple", (0, 1, 2, 3)), ("array", np.array([0, 1, 2, 3])), ("float-list", [0.0, 1.0, 2.0, 3.0]))])]
+_run_before_argform = run
+
+
+def run(tier, seed, escalate=False):
+    """… plus: sequence arguments as tuple / list / ndarray, numbers as Python / NumPy scalars, flags as bool / numpy.bool_ / 0-1"""
+    res = _run_before_argform(tier, seed, escalate)
+    f, n = argform_independence("C13", ARGFORM_CASES, seed)
+    return merge_oracle(res, f, n, "argument_form_variants")
